@@ -32,7 +32,7 @@ IdReps ==
   \cup {Bit0(Canon1(res)) : res \in ResReps \ {-1, 29}}
   \cup {EvenBitsBelow(Canon2(res), res) : res \in {0, 2, 15}}
   \cup {TopInvalid(Canon1(res), v) : res \in {1, 2, 15, 29}, v \in {60, 63}}
-  \cup {TopInvalid(Canon1(0), v) : v \in {12, 59, 63}}
+  \cup {TopInvalid(Canon1(0), v) : v \in {12, 59, 60, 63}}
   \cup WorldAliases
   \cup {[k \in 1..W |-> 3], [k \in 1..W |-> 2], [k \in 1..W |-> 1]}
 
